@@ -7,10 +7,10 @@ DRIVER = "c11"
 PROPS_MODULE = "OxyModel.Props.C11"
 AUDIT = "OxyModel/Audit/C11.lean"
 THEOREMS = ["C11.C11_url_roundtrip", "C11.C11_cookie_wire", "C11.C11_roundtrip_raw_partial", "C11.C11_raw_counterexample",
-            "C11.C11_roundtrip_hash", "C11.C11_roundtrip_aes", "C11.C11_roundtrip_fallback", "C11.C11_roundtrip",
-            "C11.C11_key_rotation", "C11.C11_pinned_regardless_of_rotation", "C11.C11_never_outside_pool",
-            "C11.C11_served_in_pool", "C11.C11_bad_cookie_not_found", "C11.C11_degrades", "C11.C11_fresh_cookie_pins",
-            "C11.C11_pool_keys_distinct"]
+            "C11.C11_roundtrip_hash", "C11.C11_roundtrip_aes", "C11.C11_roundtrip_fallback", "C11.C11_roundtrip_codec",
+            "C11.C11_roundtrip", "C11.C11_key_rotation", "C11.C11_pinned_regardless_of_rotation", "C11.C11_never_outside_pool",
+            "C11.C11_served_in_pool", "C11.C11_stale", "C11.C11_absent_or_malformed", "C11.C11_forged", "C11.C11_expired",
+            "C11.C11_degrades", "C11.C11_fresh_cookie_pins", "C11.C11_pool_invariant", "Sticky.symCipher_ideal"]
 RACE = False
 MAX_REPORTS = 1000
 RULE = ("scenario = one balancer (rr or rebalancer) with a sticky session of a random codec (raw / hash / aes+ttl / fallback chains, "
@@ -111,8 +111,9 @@ def minter(spec):
 
 def gen_scenario(rng, awkward, n_ops):
     codec = gen_codec(rng)
-    lines = ["cfg lb=%s codec=%s%s%s" % (rng.choice(["rr", "rr", "rb"]), codec, " via=srv" if rng.random() < 0.1 else "",
-                                         " opts=1" if rng.random() < 0.25 else "")]
+    lines = ["cfg lb=%s codec=%s%s%s%s" % (rng.choice(["rr", "rr", "rb"]), codec, " via=srv" if rng.random() < 0.1 else "",
+                                           " opts=1" if rng.random() < 0.25 else "",
+                                           " name=" + rng.choice(["sid", "x-aff_1", "A.b%7Cc"]) if rng.random() < 0.12 else "")]
     urls = []
     while len(urls) < rng.randint(2, 6):
         u = gen_url(rng, awkward)
@@ -148,7 +149,7 @@ def gen_scenario(rng, awkward, n_ops):
                 elif k < 0.3:
                     v = '"' + u + '"'
                 elif k < 0.4:
-                    v = rng.choice(["", "garbage", "%zz", "x=1; aff=" + u, " " + u + " ", "a\x01b", "forged", "aes.1", "aes.1.", "0",
+                    v = rng.choice(["", "garbage", "%zz", "x=1; aff=" + u, "aff=" + u, u + "; sid=" + u, " " + u + " ", "a\x01b", "forged", "aes.1", "aes.1.", "0",
                                     "http://h1/p; other=1", "aes.x.y", "aes.01.abc"])
                 else:
                     exp = rng.choice(["", "", "|%d" % (1577836800 + now // 10**9 + rng.choice([-5, 0, 1, 3, 100])), "|abc", "|-5", "|", "|+99999999999", "|1e9",
@@ -185,7 +186,7 @@ def gen_scenario(rng, awkward, n_ops):
 
 
 def gen(rng, tier):
-    n_scen = {"quick": 1500, "thorough": 20000, "search": 1500}.get(tier, 1500)
+    n_scen = {"quick": 2000, "thorough": 60000, "search": 1500}.get(tier, 2000)
     for i in range(n_scen):
         yield gen_scenario(rng, awkward=(i % 8 == 7), n_ops=rng.randint(12, 45))
     # malformed stream
